@@ -84,6 +84,8 @@ def trip_count(interp, it):
         return 0, it.shape[0]
     if isinstance(it, Opaque) and it.tag == "seq":
         return 0, it.payload["len"]
+    if isinstance(it, Opaque) and it.tag == "enumerate":  # enumerate(<1-D array of symbolic length>, start)
+        return 0, it.payload[0].shape[0]
     raise Undecided(f"loop contract over {type(it).__name__}")
 
 
@@ -173,6 +175,8 @@ def run_loop(interp, node, it, spec: SeqLoop):
         elem = spec.element(interp, k, entry, it)
     elif isinstance(it, NDArr):
         elem = it.get(k)
+    elif isinstance(it, Opaque) and it.tag == "enumerate":
+        elem = (k + to_z3(it.payload[1]) if not _zero(it.payload[1]) else k, it.payload[0].get(k))
     else:
         elem = (k + lo_t if not _zero(lo) else k)
     interp.assign(node.target, elem)
@@ -201,6 +205,7 @@ def run_loop(interp, node, it, spec: SeqLoop):
     # ---- leave the arbitrary iteration: drop its assumptions, continue from state(N)
     del path.pc[saved_pc:]
     fr.env.clear()
+    fr.env_havoc = True  # variables bound only inside the loop body are dropped: reads stay `unresolved`, not UnboundLocalError
     fr.env.update(saved_env)
     if spec.axioms:
         for a in spec.axioms(interp, None, entry):
@@ -280,6 +285,7 @@ def first_match_hook(interp, node, it):
             path.quiet -= 1
             if old is None:
                 fr.env.pop(tname, None)
+                fr.env_havoc = True
             else:
                 fr.env[tname] = old
 
